@@ -193,7 +193,7 @@ def run_md3(case, ctx):
 
 def targets(tier):
     k = 1 if tier == "quick" else 10
-    t = {"fresh_process_scenarios": 4 * k, "encoded_runs_compared": 1500 * k, "unused_argument_runs_compared": 110 * k, "steps_compared": 200000 * k}
+    t = {"fresh_process_scenarios": 4 if tier == "quick" else 16, "encoded_runs_compared": 1500 * k, "unused_argument_runs_compared": 110 * k, "steps_compared": 200000 * k}
     for name in ERR + ("LinearFourRates",):
         t["drift_histories:" + name] = 8 * k
     return t
